@@ -88,6 +88,10 @@ def main():
         if not a.no_build:
             build_all(race=(pid in props.NEEDS_RACE))
         out = fn(work, tier, seed, a.replay)
+        if LIFECYCLE_RUNS:
+            lv, summary = lifecycle_violations(pid, work)
+            out.violations += lv
+            out.coverage["lifecycle"] = summary
         return finish(pid, tier, seed, out, t0)
     except HarnessError as e:
         print("HARNESS-ERROR property=%s: %s" % (pid, e), file=sys.stderr)
